@@ -261,6 +261,14 @@ def point(prog, rng, which, k, rep):
         return prog.let(g + '.lit', rm.jac_lit(F, P))[0]
     if rep == 'scaled':
         return prog.let(g + '.lit', rm.jac_lit(F, P, lam_for(rng, which)))[0]
+    if rep == 'setters':
+        # start from the generator and overwrite every coordinate through the public setters
+        lam = lam_for(rng, which)
+        l2 = F.mul(lam, lam)
+        reg = prog.let(g + '.one')[0]
+        reg = prog.let(g + '.set_z', reg, F.enc(lam))[0]
+        reg = prog.let(g + '.set_y', reg, F.enc(F.mul(P[1], F.mul(l2, lam))))[0]
+        return prog.let(g + '.set_x', reg, F.enc(F.mul(P[0], l2)))[0]
     if rep == 'jac':
         # [k]G = [k1]G + [k2]G computed by the library, result left in whatever Jacobian form the adder produced
         k1 = rng.randrange(1, r)
